@@ -34,6 +34,9 @@ class Layout:
     def hex_inner(self, digits):
         return "&H" + digits
 
+    def line_end(self):
+        return ""
+
 
 class DrawnLayout(Layout):
     """Layout whose every choice comes from a Hypothesis `draw`."""
@@ -73,6 +76,13 @@ class DrawnLayout(Layout):
         if n:
             self.changes += 1
         return n
+
+    def line_end(self):
+        # blanks between the last token of a line and the line end
+        n = self._draw(self._st.sampled_from([0, 0, 1, 2]))
+        if n:
+            self.changes += 1
+        return " " * n
 
     def numeric_inner(self, spelling):
         # blanks at the places the tool's own literal patterns admit: before / after E, after the exponent sign
@@ -266,7 +276,9 @@ class Renderer:
                 out = t
                 continue
             prev = lst[i - 1]
-            if prev[0] == "data" and prev[1] and prev[1][-1][0] in ("u", "e"):
+            if s[0] == "rem" and len(s) > 3 and s[3] == "nocolon" and s[2] == "'" and prev[0] != "data":
+                out = self.j(out, t)  # an apostrophe comment needs no colon before it
+            elif prev[0] == "data" and prev[1] and prev[1][-1][0] in ("u", "e"):
                 # blanks after an unquoted DATA item are content: no layout gap before the colon
                 out = out + ":"
                 out = self.j(out, t)
@@ -295,6 +307,9 @@ class Renderer:
         k = s[0]
         j = self.j
         if k == "let":
+            if len(s) > 4 and s[4] == "open":
+                # string literal without its closing quote: legal as the last thing on a line (the generator places it there)
+                return j("LET" if s[3] else None, self.expr(s[1]), "=", '"' + s[2][1])
             return j("LET" if s[3] else None, self.expr(s[1]), "=", self.expr(s[2]))
         if k == "if":
             out = j("IF", self.expr(s[1]), "THEN", self.branch(s[2]))
@@ -473,7 +488,7 @@ class Renderer:
         L = self.L
         out = []
         for lineno, stmts in prog:
-            out.append(str(lineno) + L.after_linenum() + self.stmts(stmts))
+            out.append(str(lineno) + L.after_linenum() + self.stmts(stmts) + ("" if _content_tail(stmts) else L.line_end()))
             for _ in range(L.blank_lines()):
                 out.append("")
         while out and out[-1] == "":
@@ -484,6 +499,23 @@ class Renderer:
         if L.trailing_nul:
             text += "\x00"
         return text
+
+
+def _content_tail(stmts):
+    """Does the line end inside content (comment, unquoted / empty DATA item, open string literal)?  Blanks there are not layout."""
+    if not stmts:
+        return False
+    last = stmts[-1]
+    if last[0] == "if":
+        br = last[3] if last[3] is not None else last[2]
+        if br[0] == "line":
+            return _content_tail(br[2]) if len(br) > 2 else False
+        return _content_tail(br[1])
+    if last[0] == "rem":
+        return True
+    if last[0] == "data":
+        return bool(last[1]) and last[1][-1][0] in ("u", "e")
+    return last[0] == "let" and len(last) > 4
 
 
 def render(prog, layout=None, paren_unary=False, canonical_clear=False):
